@@ -13,6 +13,7 @@ import (
 	"github.com/Oneledger/protocol/data/network_delegation"
 	"github.com/Oneledger/protocol/data/ons"
 	"github.com/Oneledger/protocol/data/rewards"
+	"github.com/Oneledger/protocol/storage"
 )
 
 type GovernanceState struct {
@@ -46,6 +47,9 @@ func (id ProposalID) Err() error {
 		return errors.New("proposal id is empty")
 	case len(id) != SHA256LENGTH:
 		return errors.New("proposal id length is incorrect")
+	case strings.Contains(string(id), storage.DB_PREFIX):
+		// the fund store and the internal transaction queue recover the id by splitting their keys at this separator
+		return errors.New("proposal id contains the key separator")
 	}
 	return nil
 }
